@@ -7,6 +7,7 @@ Only property theorems and non-vacuity examples; helper lemmas are in `GT.Lemmas
 -/
 import GT.Lemmas.Obj
 import GT.Lemmas.Units
+import GT.Lemmas.Vectorised
 import GT.Model.Units
 import Mathlib.Algebra.BigOperators.Fin
 import Mathlib.Algebra.Field.Rat
@@ -289,5 +290,89 @@ theorem concat_units (a : ND K) (rest : List (ND K)) {t : List ℕ}
 
 example : (ND.stack [ofFn [2] (fun ix => (ix.headD 0 : ℚ)), ofFn [2] (fun ix => (ix.headD 0 + 5 : ℚ))] 0).toOption.map
     (fun c => (c.shape, c.data.toList)) = some ([2, 2], [0, 1, 5, 6]) := by decide +kernel
+
+/-! ## lifting of the vectorised last-axis formulas: unit `i` of `f_vec a` is `f_unit` of unit `i`
+of `a`, for every composite rank.  The `ND` models (`GT.Model.Obj.applyBilinear`,
+`GT.Model.Vectorised`) are written with the source's own numpy idioms and are compared with the
+numpy code on every run (`apply_bilinear_corr`, `vectorised_corr`).
+
+Lifted here: `apply_bilinear` / `normsq` (with and without form, broadcasting outer shapes), the
+`(x.T * f.T).T` idiom, `poincare_to_kleinian`, `kleinian_to_poincare`, in-place `normalize`, the
+argument of `arccosh` in `Point.distance`.  NOT lifted by a theorem (stretch; covered by the
+per-unit oracle `points_per_unit` / `vectorised_per_unit` only): `poincare_to_halfspace`,
+`halfspace_to_poincare`, `affine_coords`, `Segment._compute_aux_data`'s `[..., np.newaxis]`
+broadcasting, `origin_to`, circle parameters, fixed points, `sl2_irrep` on arrays. -/
+
+/-- `apply_bilinear(v1, v2, F)[bix] = x F yᵀ` for the units paired by numpy broadcasting -/
+theorem applyBilinear_units (v₁ v₂ F : ND K) {o₁ o₂ O : List ℕ} {n : ℕ}
+    (h₁ : v₁.shape = o₁ ++ [n]) (h₂ : v₂.shape = o₂ ++ [n]) (hF : F.shape = [n, n])
+    (hO : bcastShape o₁ o₂ = some O) :
+    ∃ c, applyBilinear v₁ v₂ (some F) = .ok c ∧ c.shape = O ∧
+      ∀ bix, Valid O bix →
+        scalarAt c bix = bil (matAt F n n []) (rowAt v₁ n (bcIx o₁ bix)) (rowAt v₂ n (bcIx o₂ bix)) :=
+  applyBilinear_form_units v₁ v₂ F h₁ h₂ hF hO
+
+/-- `apply_bilinear(v1, v2)[bix] = x · y` (Euclidean), in particular `normsq` -/
+theorem applyBilinear_none_units (v₁ v₂ : ND K) {o₁ o₂ O : List ℕ} {n : ℕ}
+    (h₁ : v₁.shape = o₁ ++ [n]) (h₂ : v₂.shape = o₂ ++ [n]) (hO : bcastShape o₁ o₂ = some O) :
+    ∃ c, applyBilinear v₁ v₂ none = .ok c ∧ c.shape = O ∧
+      ∀ bix, Valid O bix → scalarAt c bix = dot (rowAt v₁ n (bcIx o₁ bix)) (rowAt v₂ n (bcIx o₂ bix)) := by
+  obtain ⟨c, hc, hs, _, hg⟩ := applyBilinear_none_spec v₁ v₂ h₁ h₂ hO
+  refine ⟨c, hc, hs, fun bix hv => ?_⟩
+  rw [scalarAt, hg bix hv]
+  simp [dot, rowAt]
+
+/-- the `(x.T * f.T).T` idiom scales unit `i` by scalar `i` (a single unit: by the one scalar
+that `atleast_1d` wrapped) -/
+theorem scaleLast_units (x f : ND K) {o : List ℕ} {n : ℕ} (hx : x.shape = o ++ [n])
+    (hf : f.shape = if o = [] then [1] else o) :
+    ∃ c, scaleLast x f = .ok c ∧ c.shape = x.shape ∧
+      ∀ i, Valid o i → rowAt c n i = f.get (if o = [] then [0] else i) • rowAt x n i := by
+  obtain ⟨c, hc, hs, hg⟩ := scaleLast_spec x f hx hf
+  refine ⟨c, hc, by rw [hs, hx], fun i hi => ?_⟩
+  funext cc
+  simp only [rowAt, Pi.smul_apply, smul_eq_mul]
+  rw [hg i cc.1 hi cc.2, mul_comm]
+
+/-- `poincare_to_kleinian` on a composite = `p2k` on every unit (C01's chart map) -/
+theorem p2k_units (x : ND K) {o : List ℕ} {n : ℕ} (hx : x.shape = o ++ [n]) :
+    ∃ c, p2kND x = .ok c ∧ c.shape = x.shape ∧ ∀ i, Valid o i → rowAt c n i = p2k (rowAt x n i) :=
+  p2kND_units x hx
+
+/-- `kleinian_to_poincare` on a composite = `k2p` on every unit -/
+theorem k2p_units [LinearOrder K] (r : K → K) (x : ND K) {o : List ℕ} {n : ℕ} (hx : x.shape = o ++ [n]) :
+    ∃ c, k2pND (fun a => r |a|) x = .ok c ∧ c.shape = x.shape ∧
+      ∀ i, Valid o i → rowAt c n i = k2p r (rowAt x n i) :=
+  k2pND_units r x hx
+
+/-- in-place `utils.normalize` on a composite = `normalize` on every unit (null rows untouched) -/
+theorem normalize_units [DecidableEq K] (rabs : K → K) (v F : ND K) {o : List ℕ} {n : ℕ}
+    (hv : v.shape = o ++ [n]) (hF : F.shape = [n, n]) :
+    ∃ c, normalizeLit rabs v F = .ok c ∧ c.shape = v.shape ∧
+      ∀ i, Valid o i → rowAt c n i = normalizeRowF rabs (matAt F n n []) (rowAt v n i) :=
+  normalizeLit_units rabs v F hv hF
+
+/-- the argument of `arccosh` in `Point.distance(self, other)` before `abs`/`max(·,1)` (entrywise
+ufuncs): `⟨x̂, ŷ⟩` for the units paired by broadcasting -/
+theorem distance_units [DecidableEq K] (rabs : K → K) (x y J : ND K) {o₁ o₂ O : List ℕ} {n : ℕ}
+    (hx : x.shape = o₁ ++ [n]) (hy : y.shape = o₂ ++ [n]) (hJ : J.shape = [n, n])
+    (hO : bcastShape o₁ o₂ = some O) :
+    ∃ nx ny c, normalizeLit rabs x J = .ok nx ∧ normalizeLit rabs y J = .ok ny ∧
+      applyBilinear nx ny (some J) = .ok c ∧ c.shape = O ∧
+      ∀ bix, Valid O bix →
+        scalarAt c bix = bil (matAt J n n [])
+          (normalizeRowF rabs (matAt J n n []) (rowAt x n (bcIx o₁ bix)))
+          (normalizeRowF rabs (matAt J n n []) (rowAt y n (bcIx o₂ bix))) := by
+  obtain ⟨nx, hnx, hnxs, hnxg⟩ := normalizeLit_units rabs x J hx hJ
+  obtain ⟨ny, hny, hnys, hnyg⟩ := normalizeLit_units rabs y J hy hJ
+  obtain ⟨c, hc, hcs, hcg⟩ := applyBilinear_form_units nx ny J (by rw [hnxs, hx]) (by rw [hnys, hy]) hJ hO
+  refine ⟨nx, ny, c, hnx, hny, hc, hcs, fun bix hv => ?_⟩
+  rw [hcg bix hv, hnxg _ (valid_bcIx_left hO hv), hnyg _ (valid_bcIx_right hO hv)]
+
+/-- the hypotheses of the lifting theorems are shape equations, met e.g. by a 3×2 composite of
+points of the plane -/
+example : ∃ c, p2kND (ofFn [3, 2, 2] fun _ => (1 / 2 : ℚ)) = .ok c ∧ c.shape = [3, 2, 2] := by
+  obtain ⟨c, hc, hs, _⟩ := p2k_units (ofFn [3, 2, 2] fun _ => (1 / 2 : ℚ)) (o := [3, 2]) (n := 2) rfl
+  exact ⟨c, hc, hs⟩
 
 end GT.C04
